@@ -240,7 +240,7 @@ func cmdCheck(args []string) int {
 		return nil
 	}
 	var reports []oblReport
-	nObl, nDis, nVac, nVacOK, nVacUnknown, nFinding := 0, 0, 0, 0, 0, 0
+	nObl, nDis, nVac, nVacOK, nVacUnknown, nFinding, nVacGround := 0, 0, 0, 0, 0, 0, 0
 	var violations []string
 	var solverTime float64
 	var samples []any
@@ -258,6 +258,9 @@ func cmdCheck(args []string) int {
 			case "sat":
 				nVacOK++
 				rep.Result = "sat (expected)"
+			case "sat-ground":
+				nVacGround++
+				rep.Result = "sat on the ground part (expected; quantified assumptions dropped)"
 			case "unsat":
 				rep.Result = "unsat: VACUOUS"
 				violations = append(violations, writeReplay(replayDir, id, j, "vacuity guard failed: the assumptions at this point are contradictory, so everything after it would be proved vacuously"))
@@ -319,7 +322,7 @@ func cmdCheck(args []string) int {
 			"trusted_base":              tb,
 			"functions_under_contract":  fnReports,
 			"obligation_results":        reports,
-			"vacuity_guards":            map[string]int{"total": nVac, "sat": nVacOK, "unknown": nVacUnknown},
+			"vacuity_guards":            map[string]int{"total": nVac, "sat": nVacOK, "sat_ground_part": nVacGround, "unknown": nVacUnknown},
 			"known_finding_obligations": nFinding,
 			"known_findings_printed":    findingLines,
 			"engine_errors":             engineErrs,
@@ -341,8 +344,8 @@ func cmdCheck(args []string) int {
 	_ = os.MkdirAll(filepath.Join(verifDir(), "evidence"), 0o755)
 	data, _ := json.MarshalIndent(ev, "", " ")
 	_ = os.WriteFile(filepath.Join(verifDir(), "evidence", id+".json"), data, 0o644)
-	fmt.Printf("%s [%s]: %d functions, %d obligations, %d discharged, %d vacuity guards (%d sat, %d unknown), %d known-finding halves; load %.1fs gen %.1fs solve %.1fs\n",
-		id, tier, len(fnReports), nObl, nDis, nVac, nVacOK, nVacUnknown, nFinding, tLoad, genS, solveS)
+	fmt.Printf("%s [%s]: %d functions, %d obligations, %d discharged, %d vacuity guards (%d sat, %d sat-ground, %d unknown), %d known-finding halves; load %.1fs gen %.1fs solve %.1fs\n",
+		id, tier, len(fnReports), nObl, nDis, nVac, nVacOK, nVacGround, nVacUnknown, nFinding, tLoad, genS, solveS)
 	for _, w := range warns {
 		fmt.Println("warning:", w)
 	}
@@ -421,7 +424,7 @@ func pickFns(p *Program, key string) []*ssa.Function {
 		if len(f.Blocks) == 0 {
 			continue
 		}
-		if f.Synthetic != "" && !strings.Contains(f.Synthetic, "instance") && f.Parent() == nil {
+		if f.Synthetic != "" && !strings.Contains(f.Synthetic, "instance") && !strings.Contains(f.Synthetic, "package initializer") && f.Parent() == nil {
 			continue
 		}
 		if f.TypeParams().Len() > 0 && len(f.TypeArgs()) == 0 {
